@@ -32,6 +32,9 @@ structure Clip where
   ys : Int
 deriving DecidableEq, Repr
 
+/-- `MIN_SCORE` of `bio::alignment::pairwise`: the code's "minus infinity" (an ordinary integer here) -/
+def minScore : Int := -858993459
+
 def gapI (sc : Sc) : St → Int
   | .ins => sc.ge
   | _ => sc.go + sc.ge
